@@ -64,6 +64,8 @@ func init() {
 			Run: func(P *Program, R *Report) {
 				sharedRule(P, R, "C07", "C07.d", "C20.j", func(c string) bool { return strings.Contains(c, "put-back") })
 			}},
+		Rule{ID: "C20.k", Explain: "nothing reachable from a shared credential is overwritten in place by one goroutine's clean-up: no function mutates in place a big.Int it reached through the builders or the proof commitment (the obligations of C07.h, same rule) - wiping a discarded builder's secrets zeroes the witness's E, which the commit aliases.",
+			Run: func(P *Program, R *Report) { sharedRule(P, R, "C07", "C07.h", "C20.k", nil) }},
 	)
 }
 
